@@ -271,6 +271,36 @@ def rule_e(chk, prog):
     chk.floor("C19.e", n, 3, "constructions of the daily water-table series")
 
 
+def rule_i(chk, prog):
+    """C19.i (the depth of the day is the series' entry for that day): every read of the daily water-table series (`<params>.z_gw[k]`) below the
+    step and in the initial conditions takes k from the clock's time-step counter (access path CLOCK.time_step_counter) - like the weather
+    row and the irrigation schedule - not from the state's copy of the counter, which is refreshed later in the step and still holds the
+    previously simulated day."""
+    from ..common import step_roles, init_roles
+    n = 0
+    for roles in (step_roles(prog), init_roles(prog)):
+        for key in sorted(roles.reached):
+            fi = prog.funcs[key]
+            for x in walk_no_nested(fi.node):
+                if not (isinstance(x, ast.Subscript) and isinstance(x.value, ast.Attribute) and x.value.attr == "z_gw" and isinstance(x.ctx, ast.Load)):
+                    continue
+                if not any(p.startswith("PARAM") for p in roles.paths(fi, x.value.value)):
+                    continue
+                n += 1
+                chk.fn(key)
+                where = f"{fi.module}:{fi.qualname}"
+                construct = norm(x)
+                k = x.slice
+                ok = isinstance(k, ast.Attribute) and k.attr == "time_step_counter" and any(p == "CLOCK" or p.startswith("CLOCK") for p in roles.paths(fi, k.value)) \
+                    and not any(p.startswith("STATE") for p in roles.paths(fi, k.value))
+                if ok:
+                    chk.ok("C19.i", where, construct, "indexed by the clock's time-step counter")
+                else:
+                    chk.violation("C19.i", where, construct, f"the daily water-table series is read at `{norm(k)}`, not at the clock's time-step counter: the table used on a day "
+                                  "is another day's (the state's counter still holds the previously simulated day)", loc=fi.loc(x))
+    chk.floor("C19.i", n, 2, "reads of the daily water-table series")
+
+
 def rule_g(chk, prog):
     """C19.g (each compartment's adjusted field capacity is built from its own properties): every store into the adjusted-field-capacity array
     `A[k] = v` (both implementations) has a scalar index k, and every per-compartment hydraulic property read in v - `prof.th_fc[j]`, or a
@@ -421,6 +451,7 @@ def run(chk, prog, tier):
     from ._siblings import wt_in_soil_agreement
     wt_in_soil_agreement(chk, prog, "C19.f")
     rule_g(chk, prog)
+    rule_i(chk, prog)
     from .c18 import rule_h as iwc_adjusted_fc
     iwc_adjusted_fc(chk, prog, rule="C19.h")
     chk.assume("A-1")
